@@ -244,6 +244,8 @@ class MetadataGenerator:
 
         for item in t.types:
             flatten(item)
+        # The same as constructor of DUnion does for its members: no duplicates, one StringLiteral (or str if there are too many)
+        items = DUnion(*items).types
 
         for item in items:
             if isinstance(item, dict):
